@@ -255,7 +255,9 @@ LastNonNul(b, at, N) == IF \E i \in 0 .. N - 1 : b[at + i + 1] # 0
                         THEN CHOOSE i \in 0 .. N - 1 : b[at + i + 1] # 0 /\ \A j \in i + 1 .. N - 1 : b[at + j + 1] = 0
                         ELSE -1
 
-ArrayOps(b, li, ip, inst) ==
+\* pfx: "arr_" (the array view itself) or "rarr_" (the byte-typed view arr.raw():
+\* obtaining it touches nothing and it must inherit the end of the buffer)
+ArrayOpsVia(b, li, ip, inst, pfx, cls) ==
   LET leaves == LLeaves[li]
   IN ConcatAll([k \in 1 .. Len(leaves) |->
        LET lf == leaves[k]
@@ -263,29 +265,31 @@ ArrayOps(b, li, ip, inst) ==
            N == lf.n
            A(lo, len) == Acc(b, inst.w, at + lo, len, inst.base, at, at + N)
            inreg == at + N <= Len(b) /\ ~inst.w.dead
-           O(kind, args, val, w) == Mk("array", kind, li, ip, lf.path, args, val, w, TRUE, FALSE, at)
+           O(kind, args, val, w) == Mk(cls, pfx \o kind, li, ip, lf.path, args, val, w, TRUE, FALSE, at)
        IN IF lf.kind # "array" \/ lf.w # 1 \/ N = 0 THEN <<>>
-          ELSE <<O("arr_at", <<0>>, <<>>, A(0, 1)),
-                 O("arr_at", <<N - 1>>, <<>>, A(N - 1, 1)),
-                 O("arr_front", <<>>, <<>>, A(0, 1)),
-                 O("arr_back", <<>>, <<>>, A(N - 1, 1)),
-                 O("arr_data", <<>>, <<>>, A(0, 0)),
-                 O("arr_size_bytes", <<>>, <<>>, A(0, 0)),
-                 O("arr_fill", <<Elem>>, <<>>, A(0, N)),
-                 O("arr_assign_n", <<0, Elem>>, <<>>, A(0, 0)),
-                 O("arr_assign_n", <<1, Elem>>, <<>>, A(0, 1)),
-                 O("arr_assign_n", <<N, Elem>>, <<>>, A(0, N)),
-                 O("arr_assign_str", <<>>, PatBytes(1), A(0, N)),
-                 O("arr_assign_str", <<>>, PatBytes(N), A(0, N)),
-                 O("arr_assign_range", <<>>, PatBytes(1), A(0, 1)),
-                 O("arr_assign_range", <<>>, PatBytes(N), A(0, N))>>
+          ELSE <<O("at", <<0>>, <<>>, A(0, 1)),
+                 O("at", <<N - 1>>, <<>>, A(N - 1, 1)),
+                 O("front", <<>>, <<>>, A(0, 1)),
+                 O("back", <<>>, <<>>, A(N - 1, 1)),
+                 O("data", <<>>, <<>>, A(0, 0)),
+                 O("size_bytes", <<>>, <<>>, A(0, 0)),
+                 O("fill", <<Elem>>, <<>>, A(0, N)),
+                 O("assign_n", <<0, Elem>>, <<>>, A(0, 0)),
+                 O("assign_n", <<1, Elem>>, <<>>, A(0, 1)),
+                 O("assign_n", <<N, Elem>>, <<>>, A(0, N)),
+                 O("assign_str", <<>>, PatBytes(1), A(0, N)),
+                 O("assign_str", <<>>, PatBytes(N), A(0, N)),
+                 O("assign_range", <<>>, PatBytes(1), A(0, 1)),
+                 O("assign_range", <<>>, PatBytes(N), A(0, N))>>
                \o (IF inreg
-                   THEN <<O("arr_strlen", <<>>, <<>>,
+                   THEN <<O("strlen", <<>>, <<>>,
                             A(0, IF FirstNul(b, at, N) = N THEN N ELSE FirstNul(b, at, N) + 1)),
-                          O("arr_strlen_r", <<>>, <<>>,
+                          O("strlen_r", <<>>, <<>>,
                             LET j == LastNonNul(b, at, N)
                             IN IF j < 0 THEN A(0, N) ELSE A(j, N - j))>>
                    ELSE <<>>)])
+ArrayOps(b, li, ip, inst) ==
+  ArrayOpsVia(b, li, ip, inst, "arr_", "array") \o ArrayOpsVia(b, li, ip, inst, "rarr_", "array-raw")
 
 \* ---- level views
 LevelOps(b, li, ip, inst) ==
@@ -365,7 +369,28 @@ DataOps(b, li, ip, inst, d) ==
       O(kind, args, val, w, pre, grow) == Mk("data", kind, li, ip, name, args, val, w, pre, grow, da)
       Mut(kind, args, val, w, new) == O(kind, args, val, Whole(w, Max2(sz, new)), TRUE, new > sz)
       ks == {0, sz, sz + 1, sz + 3}
-  IN IF sz >= 250 THEN <<O("d_addr", <<>>, <<>>, D.w, TRUE, FALSE), O("d_size", <<>>, <<>>, P(D.w), TRUE, FALSE)>>
+      maxlen == IF lw = 1 THEN 255 ELSE IF lw = 2 THEN 65535 ELSE Big
+      \* growing a full array is not a call the documentation describes
+      Grow(kind, args, val, w, new) == O(kind, args, val, Whole(w, new), sz < maxlen, TRUE)
+  IN IF sz >= 250
+     THEN \* long content (a hostile length, possibly the maximum of the length type):
+          \* the calls at the far edge, where size() + 1 does not fit size_type
+          <<Mk("view-obtain", "d_addr", li, ip, name, <<>>, <<>>, D.w, TRUE, FALSE, da),
+            Mk("size-bytes", "d_size_bytes", li, ip, name, <<>>, <<>>, P(D.w), TRUE, FALSE, da),
+            O("d_size", <<>>, <<>>, P(D.w), TRUE, FALSE)>>
+          \o (IF sz >= Big THEN <<>>
+              ELSE <<O("d_at", <<sz - 1>>, <<>>, Whole(E(D.w, sz - 1, 1), sz), TRUE, FALSE),
+                     O("d_front", <<>>, <<>>, Whole(E(D.w, 0, 1), sz), TRUE, FALSE),
+                     O("d_back", <<>>, <<>>, Whole(E(P(D.w), sz - 1, 1), sz), TRUE, FALSE),
+                     O("d_pop_back", <<>>, <<>>, Whole(P(D.w), sz), TRUE, FALSE),
+                     O("d_clear", <<>>, <<>>, Whole(P(D.w), sz), TRUE, FALSE),
+                     O("d_resize_di", <<sz - 1>>, <<>>, Whole(P(D.w), sz), TRUE, FALSE),
+                     Grow("d_push_back", <<Elem>>, <<>>, E(P(D.w), sz, 1), sz + 1),
+                     Grow("d_insert", <<sz, Elem>>, <<>>, E(P(D.w), sz, 1), sz + 1),
+                     Grow("d_insert", <<0, Elem>>, <<>>, E(P(D.w), 0, sz + 1), sz + 1),
+                     Grow("d_insert_n", <<sz, 2, Elem>>, <<>>, E(P(D.w), sz, 2), sz + 2),
+                     Grow("d_insert_range", <<sz>>, PatBytes(2), E(P(D.w), sz, 2), sz + 2),
+                     Grow("d_insert_ilist", <<sz>>, PatBytes(2), E(P(D.w), sz, 2), sz + 2)>>)
      ELSE
      <<Mk("view-obtain", "d_addr", li, ip, name, <<>>, <<>>, D.w, TRUE, FALSE, da),
        Mk("size-bytes", "d_size_bytes", li, ip, name, <<>>, <<>>, P(D.w), TRUE, FALSE, da),
@@ -522,8 +547,9 @@ HostileAll(s) ==
           ConcatAll([d \in 1 .. ND(insts[i].li) |->
             LET len == DLen(s, insts[i].li, d, insts[i].ip)
                 lw == LLenW[insts[i].li][d]
-            IN H("dataLen", V0 + DenDataAddr(MI, s, insts[i].li, insts[i].ip, insts[i].a, d), lw, len,
-                 <<len + 1, len + 5, Fit(lw, 280)>>)])])
+                at == V0 + DenDataAddr(MI, s, insts[i].li, insts[i].ip, insts[i].a, d)
+            IN H("dataLen", at, lw, len, <<len + 1, len + 5, Fit(lw, 280)>>)
+               \o (IF lw <= 2 THEN H("dataLenMax", at, lw, len, <<IF lw = 1 THEN 255 ELSE 65535>>) ELSE <<>>)])])
 
 Image(s) == Overlay(Region(s), MsgImage(MI, s), V0)
 Full(s) == Len(MsgImage(MI, s))
@@ -542,7 +568,7 @@ KInit ==
   /\ pc = 0
   /\ last = [op |-> "init", li |-> 0, ip |-> <<>>, k |-> 0]
   /\ \E hs \in {HostileAll(sh)} :
-       \E j \in {0} \cup {i \in 1 .. Len(hs) : HvMod > 0 /\ i % HvMod = HvRem} :
+       \E j \in {0} \cup {i \in 1 .. Len(hs) : HvMod > 0 /\ (i % HvMod = HvRem \/ (HvMod >= 4 /\ hs[i].what = "dataLenMax"))} :
          /\ hvi = j
          /\ hv = IF j = 0 THEN NoHv ELSE hs[j]
          /\ \E b0 \in {IF j = 0 THEN Image(sh)
